@@ -15,6 +15,11 @@ METHODS = [
            also=[("C09", "src_iNetX_accepts_iff"), ("C13", "src_iNetX_unpack_state_independent")]),
       dict(func="__eq__", params={"other": "self"}, prop="C14", theorem="src_iNetX_eq"),
   ]),
+  dict(file="AcraNetwork/IENA.py", cls="IENA", lean="IENA", methods=[
+      dict(func="pack", prop="C01", theorem="src_IENA_pack"),
+      dict(func="unpack", prop="C01", theorem="src_IENA_unpack"),
+      dict(func="__eq__", params={"other": "self"}, prop="C14", theorem="src_IENA_eq"),
+  ]),
   dict(file="AcraNetwork/IRIG106/Chapter11/__init__.py", cls="PTPTime", lean="PTPTime", methods=[
       dict(func="pack", prop="C15", theorem="src_PTPTime_pack"),
       dict(func="unpack", params={"buffer": "bytes"}, prop="C15", theorem="src_PTPTime_unpack"),
